@@ -253,7 +253,8 @@ def try_cxx(src, flags=(), compiler="g++", deps=(), name=None, includes=(), link
     if syntax_only:
         cmd += ["-fsyntax-only", src]
     else:
-        cmd += [src, "-o", out + ".tmp%d" % os.getpid()] + list(link)
+        tmp_bin = out + ".tmp-" + os.urandom(6).hex()
+        cmd += [src, "-o", tmp_bin] + list(link)
     try:
         p = subprocess.run(cmd, stdout=subprocess.PIPE, stderr=subprocess.STDOUT, text=True, timeout=timeout, errors="replace")
     except subprocess.TimeoutExpired:
@@ -264,12 +265,21 @@ def try_cxx(src, flags=(), compiler="g++", deps=(), name=None, includes=(), link
         return p.returncode == 0, p.stdout
     if p.returncode != 0:
         return False, p.stdout
-    os.replace(out + ".tmp%d" % os.getpid(), out)
+    os.replace(tmp_bin, out)
     return True, out
+
+
+import threading
+_sbeppc_lock = threading.Lock()
 
 
 def build_sbeppc(kind="plain"):
     """Build sbeppc from /repo's working tree (content-addressed cache)."""
+    with _sbeppc_lock:
+        return _build_sbeppc(kind)
+
+
+def _build_sbeppc(kind="plain"):
     srcs = tree_files(os.path.join(SBEPPC_SRC, "sbepp", "sbeppc"))
     flagsets = {
         "plain": ["-O1", "-g0", "-DNDEBUG"],
@@ -282,18 +292,19 @@ def build_sbeppc(kind="plain"):
     out = os.path.join(bdir, "sbeppc-%s-%s" % (kind, key))
     if os.path.exists(out):
         return out
+    tmp_out = out + ".tmp-" + os.urandom(6).hex()
     bi = os.path.join(bdir, "build_info-%s.cpp" % key)
     tmpl = read(os.path.join(SBEPPC_SRC, "sbepp", "sbeppc", "build_info.cpp.in"))
     write(bi, re.sub(r"@[A-Za-z_]+@", "1.7.0", tmpl))
     cmd = ["g++", "-std=c++17", "-D" + GUARD, "-DFMT_SHARED", "-I" + SBEPPC_SRC, "-I" + SBEPP_INC,
            "-isystem", "/root/miniconda/include"] + flags + [
-        os.path.join(SBEPPC_SRC, "sbepp", "sbeppc", "main.cpp"), bi, "-o", out + ".tmp%d" % os.getpid(),
+        os.path.join(SBEPPC_SRC, "sbepp", "sbeppc", "main.cpp"), bi, "-o", tmp_out,
         "-Wl,-rpath,/root/miniconda/lib", "/root/miniconda/lib/libfmt.so", "/usr/lib/x86_64-linux-gnu/libpugixml.so"]
     t0 = time.time()
     p = subprocess.run(cmd, stdout=subprocess.PIPE, stderr=subprocess.STDOUT, text=True, errors="replace")
     if p.returncode != 0:
         raise InfraError("sbeppc (%s) does not build from the working tree:\n%s" % (kind, p.stdout[-4000:]))
-    os.replace(out + ".tmp%d" % os.getpid(), out)
+    os.replace(tmp_out, out)
     log("built sbeppc[%s] in %.0fs" % (kind, time.time() - t0))
     return out
 
@@ -404,10 +415,18 @@ def parallel(jobs, fn, nproc=None):
 
 # ---------------------------------------------------------- code generation --
 
+_gen_lock = threading.Lock()
+
+
 def gen_headers(xml_text, name, sbeppc=None, extra_files=None):
     """Run the real sbeppc (plain build of the working tree) on xml_text.
     Returns (include_dir, result) - cached by sbeppc binary identity + input."""
     sbeppc = sbeppc or build_sbeppc("plain")
+    with _gen_lock:
+        return _gen_headers(xml_text, name, sbeppc, extra_files)
+
+
+def _gen_headers(xml_text, name, sbeppc, extra_files):
     key = sha(os.path.basename(sbeppc), xml_text, json.dumps(extra_files or {}, sort_keys=True))
     d = os.path.join(CACHE, "gen", name + "-" + key)
     if os.path.exists(os.path.join(d, ".ok")):
